@@ -25,7 +25,7 @@ PROP = "C16"
 CLASSES = ["ConvexPolyhedron", "Polyhedron", "ConvexSpheropolyhedron", "Polygon",
            "ConvexPolygon", "ConvexSpheropolygon", "Circle", "Ellipse", "Sphere", "Ellipsoid"]
 TIERS = {
-    "quick": {"runs": 2400, "chunk": 10, "shrink_cap_s": 60, "max_minimised": 10},
+    "quick": {"runs": 4800, "chunk": 10, "shrink_cap_s": 60, "max_minimised": 10},
     "thorough": {"budget_s": 1200, "chunk": 10, "shrink_cap_s": 180, "max_minimised": 20},
     "run_cap_s": 180,
 }
@@ -240,11 +240,12 @@ def gen_spec(seed, index, tier):
             sc = 10 ** shape_rng.uniform(lo, 1.6)
             if cls in ("ConvexPolyhedron", "ConvexSpheropolyhedron"):
                 r = shape_rng.random()
-                if r < 0.08:
+                if r < 0.10:
                     # the hull-based classes use no vendored helper with absolute
-                    # tolerances: some runs live at very small sizes
-                    sc = 10 ** shape_rng.uniform(-9, -3)
-                elif r < 0.16:
+                    # tolerances: some runs live at very small sizes (down to where the
+                    # whole shape, centre included, is within 1e-8 of the origin)
+                    sc = 10 ** shape_rng.uniform(-10, -4)
+                elif r < 0.20:
                     # almost axis-aligned: coordinates about the centre tiny but not zero
                     kw = {"rotate": False, "noise": 10 ** shape_rng.uniform(-10, -7.5)}
             if cls == "Polyhedron" and shape_rng.chance(0.08):
